@@ -637,9 +637,31 @@ func (t *Trie) Find(prefix, from []byte, maxNum int) ([]storage.KeyValue, error)
 		}
 		return count >= maxNum
 	}
-	_, err = b.traverse(start, path, fromP, process, false, false)
+	// Traversal collapses what it has visited, do that to a copy: nodes of this
+	// trie that are not flushed yet can't be restored from the store.
+	_, err = b.traverse(copyInMemory(start), path, fromP, process, false, false)
 	if err != nil && !errors.Is(err, errStop) {
 		return nil, err
 	}
 	return res, nil
+}
+
+// copyInMemory returns a copy of the in-memory part of the subtrie which can be
+// changed by traversal without affecting the original one. Leaves, hash and
+// empty nodes are never changed in place, so they're shared.
+func copyInMemory(n Node) Node {
+	switch n := n.(type) {
+	case *BranchNode:
+		res := n.Clone().(*BranchNode)
+		for i := range res.Children {
+			res.Children[i] = copyInMemory(res.Children[i])
+		}
+		return res
+	case *ExtensionNode:
+		res := n.Clone().(*ExtensionNode)
+		res.next = copyInMemory(res.next)
+		return res
+	default:
+		return n
+	}
 }
